@@ -1,5 +1,5 @@
 """VtOrderB (C14): see __init__.py.  Behaviour letters (first letter of the command name):
- r b v l  irc.reply(name + '(' + ', '.join(args) + ')')
+ r b v l h  irc.reply(name + '(' + ', '.join(args) + ')')
  n        irc.noReply()
  e        irc.error('E:' + name)
  s        nothing at all
@@ -22,7 +22,7 @@ def _make(name):
     def command(self, irc, msg, args):
         _log(self.name(), name, args)
         text = name + '(' + ', '.join(args) + ')'
-        if k in 'rbvl':
+        if k in 'rbvlh':
             irc.reply(text)
         elif k == 'n':
             irc.noReply()
